@@ -16,5 +16,6 @@ let table : (string * (Model.z list list -> Model.z list list)) list = [
   "path", Model.path_run;
   "file", Model.file_run;
   "pool", Model.pool_run;
+  "thread", Model.thread_run;
   "localespec", Model.locale_spec_run;
 ]
